@@ -11,13 +11,17 @@ EXPLANATION = ("R16.1 name derivation (FileSpec::as_pathbuf / fixed_name_part) r
                "unconditionally inside the helper; R16.4 selector table of existing_log_files; R16.5 FileSpec::try_from maps parent/stem/extension, no "
                "timestamp, no discriminant; R16.6 every created log file is as_pathbuf of the configured spec (open-flag table); R16.7 the directory is "
                "created and checked before the state is built. R16.8 the predicate of the listing agrees with the naming: whole-function tables of the directory listing and of filter_files (shared with R14.2). R16.9 after every rotation the path stored in the active state is the path of the file that is open (shared with R01.4). R16.10 builder invariant: every builder method storing a rotation configuration or a file spec applies the `no start time by default` rule to the file spec that ends up stored."
-               " R16.11 (shared with R06.3): one timestamp format per logger - helpers naming files at start get the format stored in the naming state. R16.6 also: the stored path of the opened file is the configured path itself, not a resolved variant.")
+               " R16.11 (shared with R06.3): one timestamp format per logger - helpers naming files at start get the format stored in the naming state. R16.6 also: the stored path of the opened file is the configured path itself, not a resolved variant."
+               " R16.12 naming wiring: file spec, symlink, use_utc and Naming configured on Logger / FileLogWriterBuilder reach the writer's configuration unchanged; use_utc reaches file names and record clock together (shared configuration-wiring tables, rules/cfgwiring.py).")
 ASSUMPTIONS = ["Path/PathBuf semantics of std", "the start-time text is never empty"]
 NOT_DECIDED = ["Path semantics of the OS", "that existing_log_files equals the directory content for every history", "symlink resolution"]
 FLOORS = {'R16.2': 2, 'R16.3': 2, 'R16.4': 1, 'R16.5': 1}
 
 
 def run(R, ctx):
+    R.rule('R16.12', "naming wiring: file spec, symlink, use_utc and Naming configured on Logger / FileLogWriterBuilder reach the writer's configuration unchanged; use_utc reaches file names and record clock together")
+    import cfgwiring
+    cfgwiring.config_wiring(R, ctx, 'R16.12', 'C16')
     R.rule('R16.1', 'PURITY(as_pathbuf, fixed_name_part; CLOCK)')
     R.rule('R16.2', 'TABLE(name assembly, symbolic tokens)')
     R.rule('R16.3', 'symlink = opened path, before every open, unconditional')
